@@ -97,3 +97,18 @@ def pickOfRecorded (m : Nat) (rec : List (List Nat)) : Nat → Nat → List Nat 
   if c.length = m ∧ c.Nodup ∧ c.all (· < n) then c else List.range m
 
 end FastTicc.Repop
+
+namespace FastTicc.Repop
+
+/-- the recipient loop again, also returning the working labelling at the moment it stops
+(`true` = all recipients served, `false` = `RuntimeError`: no donor found). -/
+def refillTrace (m : Nat) (pick : Nat → Nat → List Nat) :
+    List Nat → List Nat → List Nat → Nat → List Nat × Bool
+  | [], _, labels, _ => (labels, true)
+  | e :: es, rem, labels, s =>
+    match findDonor (size labels) m rem with
+    | none => (labels, false)
+    | some (d, rem') =>
+      refillTrace m pick es rem' (movePoints labels d e (pick s (size labels d))) (s + 1)
+
+end FastTicc.Repop
